@@ -126,6 +126,50 @@ def replay_ser(state):
     return obs
 
 
+def _ser_model_obs(st):
+    from statham.serializers import serialize_json
+    if not st["ok"]:
+        return None
+    sj = codec.schema_to_json(st["doc"])
+    kind, el = drive.parse_labelled(sj)
+    if kind != "ok":
+        return {"parse": kind}
+    try:
+        real = serialize_json(el)
+        same = json.dumps(real, sort_keys=True) == json.dumps(codec.val_to_py(st["j0"]), sort_keys=True)
+    except Exception as exc:  # noqa
+        return {"parse": "ok", "same": False, "err": type(exc).__name__}
+    return {"parse": "ok", "same": same}
+
+
+def serializer_model_part(rep, pid, tier):
+    """MC_Ser: TLC evaluates C03/C06 on the MODEL's serializer for every document; the real
+    serialize_json output is compared with the model's (equal => TLC's verdict stands)."""
+    consts = df.TIERS[tier]["bfs"]
+    lines, meta = df._cached_tlc("ser-bfs", df._cfg(consts, False), module="MC_Ser")
+    seeds, smeta = df._cached_tlc("ser-seed", df._cfg(df.TIERS[tier]["seed"], False, "SeedSpec",
+                                                       df.TIERS[tier]["seed_levels"]), module="MC_Ser")
+    states = lines + seeds
+    obs = drive.pmap(_ser_model_obs, states, chunksize=64)
+    drift = 0
+    flagged = 0
+    for st, ob in zip(states, obs):
+        if ob is None or ob.get("parse") != "ok":
+            continue
+        clause = st["c03"] if pid == "C03" else st["c06"]
+        if not ob["same"]:
+            drift += 1
+            continue
+        if clause != "ok":
+            flagged += 1
+            key = (pid, clause) if clause == "definition-names-differ-only" else (pid, clause, _kwsig(st["doc"]))
+            rep.violation(key, f"{clause} (design level, real serializer output equals the model's): "
+                          f"{json.dumps(codec.schema_to_json(st['doc']))[:200]} -> {json.dumps(codec.val_to_py(st['j0']))[:200]}",
+                          dict(state=st))
+    return dict(states=meta["distinct"] + smeta["distinct"], transitions=meta["states"] + smeta["states"],
+                documents=len(states), real_equals_model=len(states) - drift, drift=drift, model_flagged=flagged)
+
+
 def run(pid, tier, replay_file=None):
     t0 = time.time()
     rep = Reporter(pid, tier)
@@ -247,6 +291,9 @@ def run(pid, tier, replay_file=None):
                 key = ("C07", tag, sig)
             rep.violation(key, msg, dict(state=st, observed=_slim(ob), tag=tag))
 
+    sermodel = {}
+    if pid in ("C03", "C06") and not replay_file:
+        sermodel = serializer_model_part(rep, pid, tier)
     desc_cov = {}
     if pid == "C07" and not replay_file:
         import checks_desc
@@ -280,6 +327,11 @@ def run(pid, tier, replay_file=None):
         tlc=dict(bfs=bfs, seeds=seed, sim=sim, trace_validation=adj),
         drift=dict(drift), events_adjudicated=min(len(ev_index), MAX_EVENTS), events_total=len(ev_index),
     )
+    if sermodel:
+        coverage["serializer_model"] = sermodel
+        coverage["states"] += sermodel["states"]
+        coverage["transitions"] += sermodel["transitions"]
+        coverage["traces_validated_against_impl"] += sermodel["documents"]
     if desc_cov:
         coverage["descriptions"] = desc_cov
         coverage["states"] += desc_cov["desc_states"] + desc_cov["desc_tlc_states"]
